@@ -86,6 +86,15 @@ FAMILIES = {
         "n": {"quick": 48, "thorough": 480},
         "shard": 8, "procs": 1,
     },
+    "regc": {
+        "family": "regc",
+        "coq_modules": ["Registry", "RegTrace"],
+        "in_type": "rcase", "obs_type": "regc_obs",
+        "corr": "regc_corr_ok", "chk": "regc_chk_ok", "model": "regc_model",
+        "model_chk": True, "model_chk_fn": "(fun chk t => chk (fst t, regc_model (fst t)))",
+        "n": {"quick": 120, "thorough": 2000},
+        "shard": 30, "procs": 4,
+    },
     "reg": {
         "family": "reg",
         "coq_modules": ["Registry", "RegTrace"],
@@ -136,10 +145,10 @@ PROPS = {
     "C11": _kv("C11", "Proved on the model's store for every reachable store and every entry point: a call addressed to collection c leaves documents, backfill, identity and feeds of every other collection unchanged (C11_frame); DropDataStore removes exactly the collection's rows and entry (C11_drop); re-creation yields a fresh id with no documents (C11_recreate). Views and SQL queries of other collections are covered under C12/C19 models. The executable trace checker (rows, dump order and collection list outside the addressed collection unchanged; a drop removes exactly the collection; a creation yields an empty one; events carry the addressed collection's id) is proved to accept every history of the model (C11_checker_accepts_every_model_history, KvTrace.v) and is run on the implementation's traces. Feeds and their checkpoint documents: the sched family runs half of its schedules on a named collection with the default collection as a bystander (checkpoints are read back from, and their events expected on, the fed collection).", model_chk=True, extra=[{"family": "sched", "chk": "sched_excused_C09"}]),
     "C18": _kv("C18", "Proved on Json.v for all documents, paths and values: a sub-document write leaves every property on a diverging path unchanged (C18_frame), the addressed property reads back as the written value (C18_set) or as absent after removal (C18_remove); CAS honoured / failure changes nothing is the C02 theorem (C18_cas). The trace checker restates WriteSubDoc/SubdocInsert/GetSubDocRaw as upsert_path/eval_path over the parsed read-back and is evaluated on implementation traces; it also says that a write given no CAS never answers with a CAS mismatch (it retries a lost race), and it is proved to accept every history of the model (C18_checker_accepts_every_model_history, KvC18.v: exhaustive case analysis of Kv.kstep, with the path lemmas eval_path_app / subdoc_insert_absent). Calls landing inside the read-to-write window of a sub-document write (also on a key that has no row yet and is created inside the window) are run through the hook point subdoc.window and compared with the model's sequential order; the general concurrent no-lost-update statement is part of the interleaving model: partial.", model_chk=True),
     "C13": {
-        "families": [{"family": "reg", "model_chk": True, "model_chk_fn": "kv_model_chk_reg"}, {"family": "life"}],
-        "level_text": "Proved on the registry model (Registry.v: cluster.buckets, cluster.bucketCount, store instances, handles, OpenBucket modes, Close, CloseAndDelete) for all histories over any handles, names and URLs: the reference count of a registered bucket equals the number of handles opened on it and not closed (C13_refcount, invariant rinv for every reachable state), and closing a handle - even twice - changes neither the status nor the data seen through any other handle (C13_close_is_local). Also proved for every state satisfying the invariants (every reachable one, C13_invariants_reachable; RegModes.v): what OpenBucket answers in each mode - CreateNew succeeds iff the bucket does not exist, ReOpenExisting iff it exists and is not open at another URL, CreateOrOpen unless it is open at another URL, with the error named in each case (C13_open_modes and its three corollaries) - and that a refused open changes nothing (C13_refused_open_changes_nothing); that Close closes the handle, that a closed handle stays closed through every later history and that calls through it answer bucket-closed and change nothing (C13_close_closes, C13_closed_is_final, C13_closed_handle_refuses); that Close touches neither the directories nor the registration and contents of an in-memory bucket (C13_close_keeps_disk, C13_close_keeps_memory); that opening an unregistered name on a directory yields a working handle showing what the directory holds (C13_reopen_sees_disk); that CloseAndDelete removes the registry entry and the directory, after which the bucket does not exist (C13_delete_removes); that opening a registered name again yields a handle on the instance serving that name, that handles on one instance read the same data and that a write through one is read through all (C13_open_registered_shares, C13_same_instance_same_data, C13_write_shows_through_every_handle). The executable checker restates these clauses over observations and is evaluated on implementation traces and, by evaluation, on the model's traces; correspondence with the model is exact. Concurrent opens/closes are not modelled: partial. An OpenBucket that runs inside a Close, between its unregisterBucket and the marking of the handle (hook point close.unregistered), is the model step RCloseOpen = Close then Open: the reg family runs such races in one case out of three closes and compares the outcome exactly.",
+        "families": [{"family": "reg", "model_chk": True, "model_chk_fn": "kv_model_chk_reg"}, {"family": "regc"}, {"family": "life"}],
+        "level_text": "Proved on the registry model (Registry.v: cluster.buckets, cluster.bucketCount, store instances, handles, OpenBucket modes, Close, CloseAndDelete) for all histories over any handles, names and URLs: the reference count of a registered bucket equals the number of handles opened on it and not closed (C13_refcount, invariant rinv for every reachable state), and closing a handle - even twice - changes neither the status nor the data seen through any other handle (C13_close_is_local). Also proved for every state satisfying the invariants (every reachable one, C13_invariants_reachable; RegModes.v): what OpenBucket answers in each mode - CreateNew succeeds iff the bucket does not exist, ReOpenExisting iff it exists and is not open at another URL, CreateOrOpen unless it is open at another URL, with the error named in each case (C13_open_modes and its three corollaries) - and that a refused open changes nothing (C13_refused_open_changes_nothing); that Close closes the handle, that a closed handle stays closed through every later history and that calls through it answer bucket-closed and change nothing (C13_close_closes, C13_closed_is_final, C13_closed_handle_refuses); that Close touches neither the directories nor the registration and contents of an in-memory bucket (C13_close_keeps_disk, C13_close_keeps_memory); that opening an unregistered name on a directory yields a working handle showing what the directory holds (C13_reopen_sees_disk); that CloseAndDelete removes the registry entry and the directory, after which the bucket does not exist (C13_delete_removes); that opening a registered name again yields a handle on the instance serving that name, that handles on one instance read the same data and that a write through one is read through all (C13_open_registered_shares, C13_same_instance_same_data, C13_write_shows_through_every_handle). The executable checker restates these clauses over observations and is evaluated on implementation traces and, by evaluation, on the model's traces; correspondence with the model is exact. Concurrent opens and closes: every registry action is one step of the model under cluster.lock, so a concurrent run is one of its sequential histories; the regc family runs goroutines that open (every mode), write through and close handles of one existing bucket at the same time (in memory and on disk, with and without a handle kept open throughout, so that the bucket is unregistered and registered again under them), records through hook points inside cluster.lock and inside the write transaction the order in which the calls took effect, and compares the answer of every call, the final view of every handle, the registered names, the directories and the registry's reference count with the model run on that order; the checker restates the reference-count clause on what was observed (count = handles opened and not closed; a closed handle refuses, the others work and show one store's data, every value shown was written by an acknowledged write). It exposed the defect repaired by fix ffbe3dc of /repo (an OpenBucket that loses the race to register released a reference of the winner's). An OpenBucket that runs inside a Close, between its unregisterBucket and the marking of the handle (hook point close.unregistered), is the model step RCloseOpen = Close then Open: the reg family runs such races in one case out of three closes and compares the outcome exactly.",
         "level_note": "Histories exclude Close/CloseAndDelete through a stale handle of a deleted or fully closed bucket whose name has been opened again (unregisterBucket is keyed by name and would release the new bucket's reference; recorded as a limit in DESIGN.md). cluster.lock is assumed to make each registry action atomic. Trusted: Coq kernel + vm_compute, Go harness.",
-        "assumptions": ["each OpenBucket / Close / CloseAndDelete is one atomic step (cluster.lock, bucket.mutex)", "no stale handle of a re-created bucket name is closed or deleted (op_ok)", "file system: os.Mkdir/os.Remove behave as a map from URL to directory"],
+        "assumptions": ["each OpenBucket / Close / CloseAndDelete is one atomic step (cluster.lock, bucket.mutex); the regc family watches this under real goroutine races", "no stale handle of a re-created bucket name is closed or deleted (op_ok)", "file system: os.Mkdir/os.Remove behave as a map from URL to directory"],
     },
     "C14": {
         "families": [{"family": "kv", "chk": "kv_chk_C14", "corr": "kv_corr_C14", "model_chk": True}, {"family": "ttl"}],
